@@ -186,6 +186,18 @@ CHECKS["C19"] = dict(
          "resources and identity-constraint errors outside.",
     ref="DESIGN.md 5/C19")
 
+CHECKS["C20"] = dict(
+    technique=TECH + " - schema.find(), decode(path=)/iter_errors(path=) and decode(max_depth=) on a template document with the element "
+                     "index, path spelling and depth chosen by symbolic indices (finite choice), vs. the declarations recorded by the "
+                     "extra_validator hook and the matching part of the whole-document results",
+    category="model_checking",
+    text="For every element of the template documents (repeated local name v with three different types in different contexts, a global "
+         "reference, a substitution member, repeated siblings; a valid and an invalid variant) and five path spellings, schema.find(path) is "
+         "the declaration that governed the element; for every non-root element decode/iter_errors with path= equal the matching part of the "
+         "whole-document data and errors; for max_depth 1..3 data and errors above the cut are unchanged.",
+    note="Finite-choice. Known finding: partial decode of a substitution-group member (region subtracted). Lazy resources outside.",
+    ref="DESIGN.md 5/C20")
+
 NOT_APPLICABLE = {
     "C18": "quantifies over thread interleavings; no engine of this family here executes Python threads symbolically (CrossHair is "
            "single-threaded); see DESIGN.md section 6",
